@@ -203,7 +203,7 @@ def profile_C01(g, tier):
 
 def profile_C02(g, tier):
     sels = SMALL if tier == "quick" else MEDIUM
-    scen = base_scenario(g, selections=sels, generated_p=0.15, tier=tier)
+    scen = base_scenario(g, selections=sels, generated_p=0.15, tier=tier, vm_variants=VM_VARIANTS)
     fam = scen["families"]
     kind = g.pick("kind", ["plain", "outcomes", "outcomes", "persistent", "persistent", "lost", "retry-create", "dry", "populate",
                            "overrun", "slow-worker"])
